@@ -36,11 +36,14 @@ THEOREMS = ["Mesa.Steps." + t for t in (
     "C05_arguments_unchanged", "C05_run_model_exact", "C05_run_model_terminates", "C05_instances_independent",
     "C05_all_interleavings_count", "C05_class_tables_are_linearisations", "C05_mro_is_c3_linearisation",
     "C05_single_inheritance_mro_is_the_chain", "C05_each_class_body_once_in_mro_order",
-    "C05_nested_calls_are_ordinary_calls", "C05_nested_run_is_ordinary_calls")]
+    "C05_nested_calls_are_ordinary_calls", "C05_nested_run_is_ordinary_calls",
+    "C05_wrapper_delegates_to_step_captured_at_init", "C05_rebinding_step_on_the_instance_stops_the_counter",
+    "C05_bodies_are_exactly_the_super_chain", "C05_nested_fuel_is_immaterial",
+    "C05_run_model_is_k_step_calls", "C05_instance_history_is_its_own_ops")]
 COUNTS = {"quick": 600, "thorough": 80000}
 EXHAUSTIVE = {"quick": True, "thorough": True}
 TRUSTED = [
-    "Python attribute lookup: an instance attribute (`self.step = self._wrapped_step`) shadows the class attribute; `super().step` resolves along the class MRO and never to the instance attribute",
+    "Python attribute lookup: an entry `step` in the instance __dict__ shadows the class attribute (step is a plain function on the class, a non-data descriptor) - modelled in Model/StepBinding.lean and compared with real instances on every run (bnew/bstep/bassign/bdel/buser); `super().step` resolves along the class MRO and never to the instance attribute",
     "the MRO is Python's C3 linearisation (typeobject.c); the model recomputes it (Model/StepMro.lean) and every `cdef` answer compares the two; `object` is left implicit",
     "step bodies are `record; [sub_model.step()]; [super().step(...)]`; metaclasses, `__init_subclass__`, classes that reach Model without calling Model.__init__ and step bodies that re-enter self.step() are not modelled",
     "a positional-argument mismatch raises TypeError before the callee's body runs",
@@ -54,6 +57,9 @@ RULE = ("exhaustive: every chain of depth 0-4 with per level {inherits | overrid
         "classes, 10 400 graphs), every Model subclass instantiated and stepped with / without an argument, run_model on the last; random: chains of "
         "depth 0-6 or (2 in 5) class graphs of 2-7 classes with 0-3 bases (mixins, diamonds, refused definitions), 1-4 instances, 5-25 "
         "interleaved step/run/rearm/halt ops and (1 in 8) link / unlink ops that make the bodies of one model step another; "
+        "binding of `step` on the instance: exhaustively every chain of depth <= 2 x {plain construction | a subclass __init__ that assigns "
+        "self.step = f before super().__init__()} x three op patterns (calls with 0-2 arguments, model._user_step = f, model.step = f, "
+        "del model.step twice), and (1 in 3 random chain scenarios) 1-2 such objects with 4-14 random ops; "
         "non-trivial = an overriding chain of >= 2 bodies was executed or run_model made >= 2 calls")
 
 _BASE = None
@@ -159,6 +165,7 @@ class Impl:
         self.Model = Model
         self.mclasses, self.mlevels = [Model], [None]  # `cdef` classes by id; 0 = mesa.Model
         self.calls = []  # nested step() calls of the current op, in the order they start: (instance, its records)
+        self.objs, self.ostate = [], []  # `bnew` objects (how `step` is bound on the instance) and what the program did to them
 
     def all(self):
         return ("steps=" + ",".join(str(m.steps) for m in self.insts)
@@ -174,6 +181,87 @@ class Impl:
     def snapshot(self):
         return [(m.steps, bool(m.running), m.execs, m.stop_at) for m in self.insts]
 
+    @staticmethod
+    def program_fn(f, m):
+        """a plain function the program binds to `step` / `_user_step`: records (f, model.steps as it sees it, arguments)"""
+        def fn(*args, **kw):
+            m.frec.append((f, m.steps, tuple(args) + tuple(kw.values())))
+            if f >= 50:
+                raise RuntimeError("boom")  # user code that fails: the count must stand
+        return fn
+
+    def ball(self):
+        return "b=" + ",".join(str(m.steps) for m in self.objs)
+
+    def _bline(self, w):
+        k = w[0]
+        if k == "bnew":
+            c = int(w[1])
+            if c >= len(self.classes):
+                return "bad-op"
+            pre = None if w[2] == "-" else int(w[2])
+            cls = self.classes[c]
+            if pre is None:
+                m = cls(1000000)
+                m.frec = []
+            else:
+                mk = self.program_fn
+
+                class Pre(cls):
+                    # a subclass whose __init__ binds `step` on the instance *before* Model.__init__ runs
+                    def __init__(s, stop_at):
+                        s.frec = []
+                        s.step = mk(pre, s)
+                        super().__init__(stop_at)
+
+                m = Pre(1000000)
+            m.idx, m.calls = -1, self.calls
+            self.objs.append(m)
+            self.ostate.append({"pre": pre, "user": None, "rebound": False, "levels": self.levels[c]})
+            self.trace.append(("bnew", len(self.objs) - 1, pre, m.steps))
+            return f"ok obj={len(self.objs) - 1} || {self.ball()}"
+        i = int(w[1])
+        if i >= len(self.objs):
+            return "bad-op"
+        m, st = self.objs[i], self.ostate[i]
+        before = m.steps
+        if k == "bstep":
+            args = [int(x) for x in w[2:]]
+            m.rec, m.frec = [], []
+            try:
+                if args and args[-1] % 2 == 0:
+                    r = m.step(*args[:-1], last=args[-1])
+                else:
+                    r = m.step(*args)
+                out = "ok"
+                assert r is None
+            except TypeError:
+                out = "err Type"
+            except RuntimeError as e:
+                if "boom" not in str(e):
+                    raise
+                out = "err Runtime"
+            self.trace.append(("bstep", i, args, out, list(m.rec), list(m.frec), before, m.steps, dict(st)))
+            return (f"{out} log={self.fmt(m.rec)} fn=" + ",".join(f"{f}@{s_}" + ("/" + ".".join(map(str, a)) if a else "")
+                                                                   for f, s_, a in m.frec) + f" || {self.ball()}")
+        if k == "bassign":
+            m.step = self.program_fn(int(w[2]), m)
+            st["rebound"] = True
+        elif k == "buser":
+            m._user_step = self.program_fn(int(w[2]), m)
+            st["user"] = int(w[2])
+        elif k == "bdel":
+            try:
+                del m.step
+            except AttributeError:
+                self.trace.append(("bedit", i, k, before, m.steps))
+                return f"err Attr || {self.ball()}"
+            st["rebound"] = True
+        else:
+            raise ValueError(w)
+        self.trace.append(("bedit", i, k, before, m.steps))
+        return f"ok || {self.ball()}"
+
     def line(self, w):
         """an exception the protocol does not name becomes an observation (never a harness crash), so that a broken
         implementation yields a replayable disagreement and an oracle clause"""
@@ -187,6 +275,8 @@ class Impl:
 
     def _line(self, w):
         k = w[0]
+        if k in ("bnew", "bstep", "bassign", "bdel", "buser"):
+            return self._bline(w)
         if k == "class":
             lv = parse_levels(w[1:])
             self.levels.append(lv)
@@ -405,8 +495,46 @@ def mixed_levels(graph):
     return [opts[(h + 3 * i) % len(opts)] for i in range(len(graph))]
 
 
+BIND_PATTERNS = [
+    # the wrapper stays: calls with and without arguments, `_user_step` re-assigned in between
+    ["bstep 0", "bstep 0 3", "bstep 0 1 4", "buser 0 2", "bstep 0", "bstep 0 5 6"],
+    # the program re-binds `step` on the instance: a function, then nothing at all (the class's step, uncounted)
+    ["bstep 0", "bassign 0 1", "bstep 0", "bstep 0 5", "bdel 0", "bstep 0", "bstep 0 7", "bdel 0", "bstep 0"],
+    ["bdel 0", "bstep 0", "bstep 0 3", "bassign 0 2", "bstep 0 4", "buser 0 1", "bstep 0", "bdel 0", "bstep 0 9"],
+    # user code that raises: the call leaves with the exception, the count stands
+    ["bstep 0", "buser 0 50", "bstep 0", "bstep 0 2", "buser 0 1", "bstep 0", "bassign 0 51", "bstep 0"],
+]
+
+
+def binding_scenarios():
+    """every chain of depth <= 2 x {plain construction | `self.step = f` before Model.__init__} x three op patterns"""
+    for sh in all_shapes(2):
+        for pre in ("-", "1", "50"):
+            for pat in BIND_PATTERNS:
+                yield core.Scenario(["scenario steps", fmt_class(list(sh)), f"bnew 0 {pre}"] + pat, {"exhaustive": True, "binding": True})
+
+
+def gen_binding_ops(R, L, ncls):
+    """1-2 objects whose `step` binding the program plays with, 4-14 ops"""
+    nobj = R.choice([1, 1, 2])
+    for _ in range(nobj):
+        L.append(f"bnew {R.randrange(ncls)} {R.choice(['-', '-', '-', '1', '2', '50'])}")
+    for _ in range(R.randrange(4, 15)):
+        i = R.randrange(nobj)
+        k = R.random()
+        if k < 0.6:
+            L.append(" ".join(["bstep", str(i)] + [str(R.randrange(0, 9)) for _ in range(R.choice([0, 0, 1, 1, 2]))]))
+        elif k < 0.75:
+            L.append(f"buser {i} {R.choice([1, 2, 3, 50, 51])}")
+        elif k < 0.88:
+            L.append(f"bassign {i} {R.choice([1, 2, 3, 50])}")
+        else:
+            L.append(f"bdel {i}")
+
+
 def builtin_corpus():
     res = [pattern(list(sh), w) for sh in all_shapes() for w in range(4)]
+    res += list(binding_scenarios())
     for g in all_class_graphs(3):
         # every choice of which classes define step (those that do call super), plus one assignment with
         # argument-taking and non-super-calling bodies
@@ -481,6 +609,8 @@ def gen_scenario(R):
         insts.append({"c": c, "hb": has_body(shapes[c]), "running": True})
         L.append(f"new {c} {R.choice([1, 2, 3, 5, 8])}")
     L += gen_ops(R, insts)
+    if R.random() < 0.35:
+        gen_binding_ops(R, L, ncls)
     return core.Scenario(L, {})
 
 
@@ -577,6 +707,35 @@ def oracle(sc, obs):
             continue
         if k == "crash":
             bad.append(f"crash: `{ev[1]}` raised {ev[2]}")
+            continue
+        if k == "bnew":
+            if ev[3] != 0:
+                bad.append(f"count: a freshly constructed model has steps={ev[3]}")
+            continue
+        if k == "bedit":
+            if ev[3] != ev[4]:
+                bad.append(f"count: `{ev[2]}` on object {ev[1]} changed steps {ev[3]} -> {ev[4]}")
+            continue
+        if k == "bstep":
+            _, i, args, out, rec, frec, s0, s1, st = ev
+            if st["rebound"]:
+                continue  # the program itself replaced / deleted the instance's `step`: outside the property (correspondence only)
+            if s1 != s0 + 1:
+                bad.append(f"count: step() on object {i} moved steps {s0} -> {s1}")
+            for d, s, a in rec:
+                if s != s0 + 1:
+                    bad.append(f"order: body {d} of object {i} saw steps={s}, expected {s0 + 1} (increment before user code)")
+            for f, s, a in frec:
+                if s != s0 + 1:
+                    bad.append(f"order: the program's function {f} saw steps={s}, expected {s0 + 1} (increment before user code)")
+            target = st["user"] if st["user"] is not None else st["pre"]
+            if target is None:
+                if frec:
+                    bad.append(f"delegate: a program function ran although object {i} has none")
+                bad += expected_chain_ok(st["levels"], rec, tuple(args), out)
+            elif rec or frec != [(target, s0 + 1, tuple(args))] or out != ("err Runtime" if target >= 50 else "ok"):
+                bad.append(f"delegate: step({args}) on object {i} should run the function {target} once with the arguments unchanged; "
+                           f"bodies {rec}, functions {frec}, {out}")
             continue
         if k == "runaway":
             running0 = ev[2][ev[1]][1]
@@ -679,6 +838,15 @@ def tags(sc, obs):
             yield "step:" + ("args" if ev[2] else "noargs") + (":TypeError" if ev[3] != "ok" else "")
             if len(ev[4]) >= 2:
                 yield "step:super-chain"
+        elif ev[0] == "bnew":
+            yield "bind:constructed" + ("-with-step-assigned-before-init" if ev[2] is not None else "")
+        elif ev[0] == "bedit":
+            yield "bind:" + ev[2] + ("" if ev[2] != "bdel" else "")
+        elif ev[0] == "bstep":
+            st = ev[8]
+            how = ("rebound" if st["rebound"] else "wrapped") + (
+                "-user-fn" if st["user"] is not None else "-init-fn" if st["pre"] is not None else "-class-chain")
+            yield "bind:call-" + how + (":TypeError" if ev[3] == "err Type" else ":RuntimeError" if ev[3] != "ok" else "") + (":args" if ev[2] else "")
         elif ev[0] == "run":
             yield "run:" + str(min(ev[-1][ev[1]][0] - ev[-2][ev[1]][0], 3)) + ("+" if ev[-1][ev[1]][0] - ev[-2][ev[1]][0] >= 3 else "") + "-calls"
 
